@@ -4,9 +4,9 @@ package main
 // C13 - the result depends only on the token sequence, not on layout, padding or file size.
 
 import (
-	"time"
 	"fmt"
 	"strings"
+	"time"
 
 	"github.com/moorara/algo/parser"
 
@@ -579,23 +579,23 @@ func c13QuickPad(p int) bool {
 func init() {
 	auxCommands["c13time"] = func(args []string) int {
 		for _, pad := range []string{strings.Repeat(" ", 8000), "/*" + strings.Repeat("x", 8000) + "*/", strings.Repeat("\n", 8000), strings.Repeat("//\tc\n", 1600)} {
-		text := "grammar g ; " + pad + " start = \"a\" ;\n"
-		for _, f := range []struct {
-			n string
-			f func()
-		}{
-			{"observeSpec", func() { observeSpec(text) }},
-			{"observeAST", func() { observeAST(text) }},
-			{"refScan", func() { refScan(text) }},
-			{"emergeScan", func() { emergeScan(text) }},
-			{"c13Outcome", func() { c13Outcome(text) }},
-		} {
-			t0 := time.Now()
-			for i := 0; i < 20; i++ {
-				f.f()
+			text := "grammar g ; " + pad + " start = \"a\" ;\n"
+			for _, f := range []struct {
+				n string
+				f func()
+			}{
+				{"observeSpec", func() { observeSpec(text) }},
+				{"observeAST", func() { observeAST(text) }},
+				{"refScan", func() { refScan(text) }},
+				{"emergeScan", func() { emergeScan(text) }},
+				{"c13Outcome", func() { c13Outcome(text) }},
+			} {
+				t0 := time.Now()
+				for i := 0; i < 20; i++ {
+					f.f()
+				}
+				fmt.Println(f.n, time.Since(t0)/20)
 			}
-			fmt.Println(f.n, time.Since(t0)/20)
-		}
 		}
 		return 0
 	}
